@@ -28,6 +28,10 @@ pub mod c01_history;
 pub mod c02_queries;
 pub mod c03_dijkstra;
 pub mod c04_bfs;
+pub mod c05_pred;
 pub mod c06_dfs;
+pub mod c07_bellman_ford;
+pub mod c08_floyd_warshall;
+pub mod c09_tarjan;
 pub mod c18_distance_matrix;
 pub mod c19_predecessor_tree;
